@@ -620,7 +620,7 @@ class Translator:
             if op == "%":
                 return Sym("int", "Int.tmod %s %s" % (paren(self.tolean(a)), paren(self.tolean(b))))
             if op in ("&", "|", "^", "<<", ">>"):
-                f = {"&": "Int.land", "|": "Int.lor", "^": "Int.xor", "<<": "Int.shiftLeft'", ">>": "Int.shiftRight'"}[op]
+                f = {"&": "intLand", "|": "intLor", "^": "intXor", "<<": "Int.shiftLeft'", ">>": "Int.shiftRight'"}[op]
                 if op in ("<<", ">>"):
                     raise Refuse("symbolic shift")
                 return Sym("int", "%s %s %s" % (f, paren(self.tolean(a)), paren(self.tolean(b))))
